@@ -106,7 +106,7 @@ def _restore_interrupted(lines: list, upto: int, eav: bool, t: E.Tally, rep: dic
             bad = GC.engine_ok(w, gwy)
             if not task.done():
                 t.bad("C13:restore-never-finishes", f"{where}: restore still pending after a get_state() at iteration {k}", rep)
-            elif task.exception() is not None and not isinstance(task.exception(), RuntimeError):
+            elif task.exception() is not None:  # (a snapshot that was refused must not make the restore it interrupted fail)
                 t.bad(f"C13:restore-raises:{type(task.exception()).__name__}", f"{where}: restore raised {task.exception()!r} (get_state at iteration {k}: {mid})", rep)
             if bad:
                 t.bad(f"C13:not-running-after-concurrent-snapshot:{bad[0]}", f"{where}: get_state() at iteration {k} of a restore ({mid}); afterwards: {bad}", rep)
